@@ -1394,8 +1394,51 @@ pub fn stat_family(nchildren: usize, maxlen: usize, max_total: usize, tls_flavou
     out
 }
 
+/// STAT mixed with other primitives: a thread may touch a mutex / rwlock / Notify right before
+/// or after it accesses a static (threads blocked on a static must not be woken by those).
+pub fn stat_mix_family(nchildren: usize, maxblocks: usize, max_total: usize) -> Vec<Program> {
+    let blocks: Vec<Vec<Op>> = vec![
+        vec![K::LazyGet { k: 0 }.into()],
+        vec![K::TlsWith { k: 0 }.into()],
+        vec![K::Lock { m: 0 }.into(), K::Unlock { m: 0 }.into()],
+        vec![K::Write { l: 0 }.into(), K::UnlockW { l: 0 }.into()],
+        vec![K::NNotify { n: 0 }.into()],
+    ];
+    let mut pool: Vec<Vec<Op>> = vec![];
+    let mut cur: Vec<Vec<Op>> = vec![vec![]];
+    for _ in 0..maxblocks {
+        let mut nxt = vec![];
+        for s in &cur {
+            for b in &blocks {
+                let mut s2 = s.clone();
+                s2.extend(b.iter().cloned());
+                nxt.push(s2);
+            }
+        }
+        pool.extend(nxt.iter().cloned());
+        cur = nxt;
+    }
+    let mut out = vec![];
+    let mut seen = HashSet::new();
+    for ch in thread_sets(&pool, nchildren, max_total) {
+        // at least two threads use the lazy static and somebody uses another primitive
+        let lazy_users = ch.iter().filter(|t| t.iter().any(|o| matches!(o.k, K::LazyGet { .. }))).count();
+        let other = ch.iter().flatten().any(|o| matches!(o.k, K::Lock { .. } | K::Write { .. } | K::NNotify { .. }));
+        if lazy_users < 2 || !other {
+            continue;
+        }
+        let objs = Objs { tls: vec![true, false], lazies: vec![true, false], mutexes: 1, rwlocks: 1, notifies: 1, ..Default::default() };
+        let p = with_main("STAT+sync", objs, vec![], ch, vec![], vec![]);
+        if seen.insert(p.text()) {
+            out.push(p);
+        }
+    }
+    out
+}
+
 pub fn stat_programs(tier: &str) -> Vec<Program> {
     let mut v = vec![];
+    v.extend(stat_mix_family(3, 2, if tier == "quick" { 6 } else { 8 }));
     if tier == "quick" {
         v.extend(stat_family(1, 2, 2, [false, false], [false, false], true));
         v.extend(stat_family(2, 2, 3, [false, false], [false, false], false));
@@ -1505,4 +1548,37 @@ pub fn spin_programs(tier: &str) -> Vec<Program> {
         vec![],
     ));
     v
+}
+
+
+/// Programs in which a thread owns (in its own frame) the last handle of an Arc whose payload's
+/// `Drop` performs an atomic load and RMW: used with every branch limit (C06).
+pub fn limit_crash_programs() -> Vec<Program> {
+    let objs = |nh: usize| Objs { atomics: vec![0, 0], handles: nh, arcs: vec![None], arc_rmw: vec![Some(1)], ..Default::default() };
+    vec![
+        with_main(
+            "LIMIT-main-holds",
+            objs(2),
+            vec![K::ArcNew { h: 0, arc: 0 }.into(), K::ArcHold { h: 0 }.into()],
+            vec![vec![fadd(0, 1, Sc), fadd(0, 1, Sc)]],
+            vec![fadd(0, 1, Sc), fadd(0, 1, Sc)],
+            vec![K::ArcDrop { h: 0 }.into(), ld(1, Sc)],
+        ),
+        with_main(
+            "LIMIT-child-holds",
+            objs(4),
+            vec![K::ArcNew { h: 0, arc: 0 }.into(), K::ArcClone { from: 0, to: 2 }.into(), K::ArcDrop { h: 0 }.into()],
+            vec![vec![K::ArcHold { h: 2 }.into(), fadd(0, 1, Sc), ld(0, Sc), K::ArcDrop { h: 2 }.into()], vec![fadd(0, 1, Sc)]],
+            vec![ld(0, Sc)],
+            vec![ld(1, Sc)],
+        ),
+        with_main(
+            "LIMIT-both-hold",
+            objs(4),
+            vec![K::ArcNew { h: 0, arc: 0 }.into(), K::ArcClone { from: 0, to: 2 }.into(), K::ArcHold { h: 0 }.into()],
+            vec![vec![K::ArcHold { h: 2 }.into(), fadd(0, 1, Sc), K::ArcDrop { h: 2 }.into()]],
+            vec![fadd(0, 1, Sc), K::ArcDrop { h: 0 }.into()],
+            vec![ld(1, Sc)],
+        ),
+    ]
 }
